@@ -226,8 +226,8 @@ pub fn build(repo: &Path, root: &Path, with_big: bool) -> Tree {
             // F), operation names that collide once snake-cased, selections that flatten to the
             // same response type name
             "syn_multi",
-            "schema { query: Q }\nenum Mood { HAPPY SAD }\nenum Tone { LOW HIGH }\nscalar Stamp\nscalar Money\ntype Bits { a: Int, b: Int }\ntype Author { name: String, mood: Mood, tone: Tone, since: Stamp, worth: Money, bits: Bits }\ntype Post { title: String, author: Author }\ntype Hero { name: String, friends: [Hero] }\ntype Q { feed: [Post], me(mood: Mood, moods: [Mood!]): Author, hero: Hero, heroFriends: [Hero], thing(id: ID): Post }\n",
-            "fragment G on Author { name mood since bits { a } }\nfragment F on Post { title author { ...G } }\nquery Dashboard { me { ...G } feed { ...F } }\nquery Feed { feed { ...F } }\nquery getThing { thing(id: \"1\") { title } }\nquery GetThing { thing(id: \"2\") { title author { name } } }\nquery get_thing { thing { title } }\nquery Crew { hero { friends { name } } heroFriends { name } }\nquery Crew2 { hero { name friends { friends { name } } } heroFriends { friends { name } } }\nquery Deep { hero { friends { friends { friends { friends { friends { friends { name } } } } } } } }\nquery Moods($m: Mood = HAPPY, $ms: [Mood!]) { me { mood } }\n",
+            "schema { query: Q }\nenum Mood { HAPPY SAD }\nenum Tone { LOW HIGH }\nscalar Stamp\nscalar Money\ntype Bits { a: Int, b: Int }\ntype Author { name: String, mood: Mood, tone: Tone, since: Stamp, worth: Money, bits: Bits }\ntype Post { id: ID, title: String, author: Author }\ntype Hero { name: String, friends: [Hero] }\ntype Q { feed: [Post], me(mood: Mood, moods: [Mood!]): Author, hero: Hero, heroFriends: [Hero], thing(id: ID): Post }\n",
+            "fragment G on Author { name mood since bits { a } }\nfragment F on Post { title author { ...G } }\nquery Dashboard { me { ...G } feed { ...F } }\nquery Feed { feed { ...F } }\nquery getThing { thing(id: \"1\") { title } }\nquery GetThing { thing(id: \"2\") { title author { name } } }\nquery get_thing { thing { title } }\nquery Crew { hero { friends { name } } heroFriends { name } }\nquery Crew2 { hero { name friends { friends { name } } } heroFriends { friends { name } } }\nquery Deep { hero { friends { friends { friends { friends { friends { friends { name } } } } } } } }\nquery Moods($m: Mood = HAPPY, $ms: [Mood!]) { me { mood } }\nquery ById($id: ID!) { thing(id: $id) { title } }\nquery PostIds { feed { id } }\n",
         ),
         (
             "syn_rec",
@@ -281,6 +281,19 @@ pub fn build(repo: &Path, root: &Path, with_big: bool) -> Tree {
         if name == "syn_rec" {
             // the Rec <-> Other cycle entered at one member only
             for (file, text) in [("query_rec.graphql", "query OnlyRec($a: Rec) { f(a: $a) }\n"), ("query_other.graphql", "query OnlyOther($b: Other) { f(b: $b) }\n")] {
+                fs::write(d.join(file), text).unwrap();
+                fixtures.push(Fixture { dir: name.to_string(), file: file.into(), is_schema: false, ops: operation_names(text), big: false, deepbad: false });
+            }
+        }
+        if name == "syn_multi" {
+            // a second document whose fragments carry the same NAMES as those of query.graphql but
+            // are different fragments (G spreads itself here and sits on another type)
+            let text = "fragment G on Hero { name friends { ...G } }\nfragment F on Hero { name }\nquery Tree { hero { ...G } heroFriends { ...F } }\n";
+            fs::write(d.join("query_samenames.graphql"), text).unwrap();
+            fixtures.push(Fixture { dir: name.to_string(), file: "query_samenames.graphql".into(), is_schema: false, ops: operation_names(text), big: false, deepbad: false });
+            // single-operation documents: the same schema name (`ID`) met first as a variable type
+            // in one call and first as a response field type in another
+            for (file, text) in [("query_idvar.graphql", "query ById($id: ID!, $ids: [ID!]) { thing(id: $id) { title } }\n"), ("query_idfield.graphql", "query PostIds { feed { id title } }\n")] {
                 fs::write(d.join(file), text).unwrap();
                 fixtures.push(Fixture { dir: name.to_string(), file: file.into(), is_schema: false, ops: operation_names(text), big: false, deepbad: false });
             }
